@@ -36,4 +36,22 @@ CHECKS = {
                    "offset is read from a fresh unwrapper fed one zero sample; both readings of 'after N samples' (N or N-1) are accepted.",
         assumptions=["option sets are restricted to those real callers can construct", "1 LSB tolerance on the window absorbs floor vs. round of the bias"],
     ),
+    "C13": dict(
+        pkg=".", hdir="root", test="TestVerif_C13",
+        quick=dict(shards=16, checks=2500, timeout=300),
+        thorough=dict(shards=16, checks=50000, timeout=2400),
+        technique="property-based testing (rapid) against an extended-precision (300-bit big.Float) reference with a-priori rounding bounds",
+        rule="rapid-generated records (pretrigger 3..256, 1..1021 post-trigger samples; constant, full-scale, alternating extremes, pulses that "
+             "wrap the signed range, noise around 32768, sloped baselines, arbitrary values; signed or unsigned) with or without 1-6 basis "
+             "projectors/basis of compatible shape (entries finite, |x| from 1e-6 to 1e3, incl. zeros) installed via SetProjectorsBasis; "
+             "non-trivial = record not constant AND (signed with negative samples OR projectors present); distinct = FNV-64 of the case",
+        level_text="AnalyzeData's seven outputs are compared with their mathematical definitions evaluated in 300-bit arithmetic; the accepted "
+                   "error is the a-priori bound of a straightforward float64 evaluation (gamma_n x sum of |terms|), so a wrong index range, "
+                   "wrong normalisation, signedness slip or wrong matrix orientation is decided for every record explored, while legitimate "
+                   "rounding (including RMS cancellation on constant full-scale records) is accepted.",
+        level_note="NaN RMS is accepted only when the true mean square lies within the rounding bound of zero; a peak below the baseline may "
+                   "be reported as the negative value or as 0 (documents only say 'peak value, pretrigger mean subtracted').",
+        assumptions=["records have npre >= 3 and at least one post-trigger sample (the configured minimum)",
+                     "projector/basis entries finite; variable-length records with projectors are documented as unimplemented and not generated"],
+    ),
 }
